@@ -4,7 +4,9 @@
    GROUP BY, HAVING, ORDER BY, JOIN ON, function arguments, CASE operand / WHEN / THEN / ELSE, IN lists, BETWEEN
    bounds, CAST, sub-queries in FROM / IN / EXISTS / scalar position, CTE bodies, set-operation operands,
    INSERT values and INSERT ... SELECT, UPDATE assignments / FROM / WHERE, DELETE USING / WHERE, MERGE source /
-   ON / WHEN conditions / SET values / INSERT values). *)
+   ON / WHEN conditions / SET values / INSERT values; the query of CREATE VIEW / CREATE MATERIALIZED VIEW / EXPLAIN, the
+   predicate of a partial index, DEFAULT values and CHECK conditions of CREATE TABLE).  [subs] is structurally
+   recursive: positions at any depth, in particular the operands at the bottom of a long flat operator chain. *)
 From Coq Require Import List String.
 From GV Require Import Model.QAst Model.QRef.
 Import ListNotations.
@@ -53,6 +55,21 @@ with subs_mwhens (l : mmwhens) : list msub :=
   | MWInsert c _ vals r => subs_opt c ++ subs_exprs vals ++ subs_mwhens r
   | MWDelete c r => subs_opt c ++ subs_mwhens r
   end
+with subs_colcons (l : mcolcons) : list msub :=
+  match l with
+  | XNil => []
+  | XPlain _ r => subs_colcons r
+  | XDefault e r => subs_expr e ++ subs_colcons r
+  | XCheck c r => subs_expr c ++ subs_colcons r
+  end
+with subs_coldefs (l : mcoldefs) : list msub :=
+  match l with DNil => [] | DCons _ _ cs r => subs_colcons cs ++ subs_coldefs r end
+with subs_tabcons (l : mtabcons) : list msub :=
+  match l with
+  | YNil => []
+  | YPlain _ _ r => subs_tabcons r
+  | YCheck c r => subs_expr c ++ subs_tabcons r
+  end
 with subs (s : mstmt) : list msub :=
   SubS s ::
   match s with
@@ -65,4 +82,8 @@ with subs (s : mstmt) : list msub :=
   | MUpdate w _ asg from wh => subs_ctes w ++ subs_assigns asg ++ subs_trefs from ++ subs_opt wh
   | MDelete w _ us wh => subs_ctes w ++ subs_trefs us ++ subs_opt wh
   | MMerge tgt src on ws => subs_tref tgt ++ subs_tref src ++ subs_expr on ++ subs_mwhens ws
+  | MCreateView _ _ q | MCreateMView _ _ q => subs q
+  | MCreateIndex _ _ _ wh => subs_opt wh
+  | MCreateTable _ cols tcs => subs_coldefs cols ++ subs_tabcons tcs
+  | MExplain q => subs q
   end.
